@@ -223,14 +223,23 @@ func verifyCertificateSignature(
 		return err
 	}
 
+	// The announced signature algorithm must be one the certificate's key can produce: otherwise the
+	// peer chooses the digest (an ECDSA key with the ed25519 scheme is verified over an empty digest,
+	// for which a signature can be forged from the public key alone).
 	switch pubKey := certificate.PublicKey.(type) {
 	case ed25519.PublicKey:
+		if signatureAlgorithm != signature.Ed25519 {
+			return dtlserrors.ErrInvalidSignatureAlgorithm
+		}
 		if ok := ed25519.Verify(pubKey, message, remoteKeySignature); !ok {
 			return dtlserrors.ErrKeySignatureMismatch
 		}
 
 		return nil
 	case *ecdsa.PublicKey:
+		if signatureAlgorithm != signature.ECDSA || len(hashAlgorithm.Digest(message)) == 0 {
+			return dtlserrors.ErrInvalidSignatureAlgorithm
+		}
 		ecdsaSig := &ecdsaSignature{}
 		if _, err := asn1.Unmarshal(remoteKeySignature, ecdsaSig); err != nil {
 			return err
@@ -245,7 +254,13 @@ func verifyCertificateSignature(
 
 		return nil
 	case *rsa.PublicKey:
+		if signatureAlgorithm != signature.RSA && !signatureAlgorithm.IsPSS() {
+			return dtlserrors.ErrInvalidSignatureAlgorithm
+		}
 		hashed := hashAlgorithm.Digest(message)
+		if len(hashed) == 0 {
+			return dtlserrors.ErrInvalidSignatureAlgorithm
+		}
 
 		// Use RSA-PSS verification if the signature algorithm is PSS
 		if signatureAlgorithm.IsPSS() {
